@@ -165,7 +165,8 @@ func gen(t *rapid.T) Case {
 		c.Reqs = append(c.Reqs, Rq{
 			Method: rapid.SampledFrom([]string{"GET", "GET", "POST", "OPTIONS"}).Draw(t, "m"),
 			Path:   rapid.SampledFrom([]string{"/v1/x", "/v2/y/7", "/x", "/v1/v1/x", "/y/7", "/v1/zz", "/v11/x", "/v1", "/v2/v1/x", "/", "/v1/", "/7/p/c", "/v1/7/p/c", "/v1/7/p/b", "/a/v2/x", "/a/v1/y/7", "/v1/beta/x", "/a/x"}).Draw(t, "path"),
-			Host:   rapid.SampledFrom([]string{"a.com", "q.b.com", "c.com", "A.COM:80", "d.com", "", "q.b.net", "q.b.org", "x.b.com.cn"}).Draw(t, "host"),
+			Host: rapid.SampledFrom([]string{"a.com", "q.b.com", "c.com", "A.COM:80", "d.com", "", "q.b.net", "q.b.org", "x.b.com.cn",
+				"a.com", "q.b.com:8080", "a.com:", "a.com:80a", "q.b.com:http", "a.com:+80", "q.b.org: 80", "a.com:\uff18\uff10", "a.com:80:90", "Q.B.COM"}).Draw(t, "host"), // incl. text behind the colon that is no port
 			Accept: rapid.SampledFrom([]string{"a/b; version=v1", "", "a/b; version=v9", "a/b; version=v2", "junk;;"}).Draw(t, "accept"),
 			Panic:  rapid.IntRange(0, 5).Draw(t, "panic") == 0,
 			Raw:    rapid.IntRange(0, 2).Draw(t, "raw") == 0,
